@@ -52,7 +52,7 @@ Section FV.
     destruct (Hw _ _ _ _ Hs I bb Hb) as [Hg|Hg]; [exact Hg|]. apply fvt_var in Hg. simpl in Hne. congruence.
   Qed.
 
-  (* the repaired placement of a continuation under binders (fix <commitcap>): < mu a. w(a) | cont > *)
+  (* the repaired placement of a continuation under binders (fix d5d4151): < mu a. w(a) | cont > *)
   Lemma occ_guard : forall binders (w : cterm -> M cstmt) lty (l : list cbinding),
     (forall cont st s st', w cont st = Ok (s, st') -> cont_cns cont ->
        forall bb, In bb (fvs s) -> In bb l \/ In bb (fvt cont)) ->
